@@ -16,7 +16,8 @@ From RU Require Import Base.Prelude Base.Utf8 Model.HostT Model.UrlRecord Model.
   Proofs.C03_ReachParts Proofs.C03_Reach Proofs.C03_ReachFile Proofs.C03_ReachHost Proofs.C03_ReachHist
   Model.FilePath Proofs.C06_Path Proofs.C06_Host Proofs.C05_Enc Proofs.C03_ReachAll Proofs.C03_Reachability
   Proofs.C03_ReachAscii Proofs.C03_ReachEx Proofs.C03_Views Proofs.C03_PortInv Proofs.C03_PortParse Proofs.C03_AuthEnd Proofs.C03_ReachKnown
-  Proofs.C05_AuthOfs Proofs.C02_Hist Proofs.C02_SetHostCanon Proofs.C02_Reach3 Proofs.C03_ParseFront Proofs.C03_ReachJoin Proofs.C03_ReachFull Proofs.C03_ReachFullEx Proofs.C03_ReachModel.
+  Proofs.C05_AuthOfs Proofs.C02_Hist Proofs.C02_SetHostCanon Proofs.C02_Reach3 Proofs.C03_ParseFront Proofs.C03_ReachJoin Proofs.C03_ReachFull Proofs.C03_ReachFullEx Proofs.C03_ReachModel
+  Proofs.C02_Reach5 Proofs.C03_ReachFin Proofs.C03_ReachFinEx.
 Open Scope string_scope.
 Open Scope N_scope.
 Open Scope list_scope.
@@ -271,6 +272,30 @@ Qed.
 Check C03_reach_ascii : forall dbg hp hpo hd u, C05_Parser.HostOK hp hpo hd -> C05_Setters.IpOK hd ->
   reach03a dbg hp hpo hd u -> Forall ok_or_space (ser u) /\ ascii (ser u).
 Print Assumptions C03_reach_ascii.
+
+(* the same under IpOKv of C05 (address VALUES - Ipv4Addr / Ipv6Addr, what set_ip_host can be given - are displayed
+   inside 0x21..0x7E) in place of IpOK (every host value that is not a domain): the weaker hypothesis, the one the host
+   model meets *)
+Theorem C03_reach_ascii_v : forall dbg hp hpo hd u, C05_Parser.HostOK hp hpo hd -> C05_Alphabet.IpOKv hd ->
+  reach03a dbg hp hpo hd u -> Forall ok_or_space (ser u) /\ ascii (ser u).
+Proof.
+  intros dbg hp hpo hd u HOK HIP R.
+  split; [exact (reach03a_alphabet_v dbg hp hpo hd HOK HIP u R) | exact (reach03a_ascii_v dbg hp hpo hd HOK HIP u R)].
+Qed.
+Check C03_reach_ascii_v : forall dbg hp hpo hd u, C05_Parser.HostOK hp hpo hd -> C05_Alphabet.IpOKv hd ->
+  reach03a dbg hp hpo hd u -> Forall ok_or_space (ser u) /\ ascii (ser u).
+Print Assumptions C03_reach_ascii_v.
+
+Example C03_reach_ascii_v_inhabited : C05_Parser.HostOK ex_hp3 ex_hp ex_hd2 /\ C05_Alphabet.IpOKv ex_hd2.
+Proof. destruct ex3_full_hyps as (_ & _ & _ & A & B0). split; assumption. Qed.
+
+(* with the host MODEL (Model/Host.v) in place of the abstract host functions: the only premise is IdnaOK idna (C09) *)
+Theorem C03_reach_ascii_model : forall dbg idna u, C09_Host.IdnaOK idna ->
+  reach03a dbg (Host.host_parse idna) Host.host_parse_opaque Host.host_display u -> Forall ok_or_space (ser u) /\ ascii (ser u).
+Proof. intros dbg idna u OK R. exact (reach03a_ascii_model dbg idna OK u R). Qed.
+Check C03_reach_ascii_model : forall dbg idna u, C09_Host.IdnaOK idna ->
+  reach03a dbg (Host.host_parse idna) Host.host_parse_opaque Host.host_display u -> Forall ok_or_space (ser u) /\ ascii (ser u).
+Print Assumptions C03_reach_ascii_model.
 
 (* the first two sentences of the property text for every reached record, in both build configurations
    (dbg' of the accessors is independent of the dbg the history was run with): the accessors re-concatenate to
@@ -777,3 +802,47 @@ Example C03_round_trips_inhabited :
   | _ => false
   end = true.
 Proof. vm_compute. reflexivity. Qed.
+
+(* the same clauses for REACHED records: every record of C02's ReachC4 (Proofs/C02_Reach5.v: Url::parse of a &str with a
+   scheme other than file, joins of "", "?q", "#f" references, all 19 mutators outside known_step3 = known_step2 [incl.
+   F-C02-9, set_ip_host V4 on a non-special scheme] + Known_F_C02_10 - path_segments_mut sessions on opaque paths only -,
+   query_pairs_mut sessions, serializations within u32) is a fixpoint of re-parsing (C02_reach_partial4), so
+   String / FromStr / TryFrom<&str>, the serde string form and serialize_internal / deserialize_internal (debug builds
+   included) round-trip, and equal serializations mean equal records.  HostOK2, host_nonempty: C02's hypotheses.
+   Not covered (C02's gap, not C03's): the file scheme, joins through the path arms, path_segments_mut on hierarchical
+   records. *)
+Theorem C03_round_trips_reach : forall dbg hp hpo hd, HostOK2 hp hpo hd -> host_nonempty hp hpo ->
+  forall u, ReachC4 dbg hp hpo hd u ->
+  url_from_str dbg hp hpo hd (utf8_lossy (url_display u)) = POk u
+  /\ serde_deserialize dbg hp hpo hd (serde_serialize u) = POk u
+  /\ deserialize_internal dbg hp hpo hd (serialize_internal u) = Some u.
+Proof. exact round_trips_reach. Qed.
+Check C03_round_trips_reach : forall dbg hp hpo hd, HostOK2 hp hpo hd -> host_nonempty hp hpo ->
+  forall u, ReachC4 dbg hp hpo hd u ->
+  url_from_str dbg hp hpo hd (utf8_lossy (url_display u)) = POk u
+  /\ serde_deserialize dbg hp hpo hd (serde_serialize u) = POk u
+  /\ deserialize_internal dbg hp hpo hd (serialize_internal u) = Some u.
+Print Assumptions C03_round_trips_reach.
+
+Theorem C03_eq_records_reach : forall dbg hp hpo hd, HostOK2 hp hpo hd -> host_nonempty hp hpo ->
+  forall u v, ReachC4 dbg hp hpo hd u -> ReachC4 dbg hp hpo hd v -> url_eq u v = true -> u = v.
+Proof. exact eq_records_reach. Qed.
+Check C03_eq_records_reach : forall dbg hp hpo hd, HostOK2 hp hpo hd -> host_nonempty hp hpo ->
+  forall u v, ReachC4 dbg hp hpo hd u -> ReachC4 dbg hp hpo hd v -> url_eq u v = true -> u = v.
+Print Assumptions C03_eq_records_reach.
+
+(* with the host model: the only premise is IdnaOK idna *)
+Theorem C03_round_trips_reach_model : forall dbg idna, C09_Host.IdnaOK idna ->
+  forall u, ReachC4 dbg (Host.host_parse idna) Host.host_parse_opaque Host.host_display u ->
+  url_from_str dbg (Host.host_parse idna) Host.host_parse_opaque Host.host_display (utf8_lossy (url_display u)) = POk u
+  /\ serde_deserialize dbg (Host.host_parse idna) Host.host_parse_opaque Host.host_display (serde_serialize u) = POk u
+  /\ deserialize_internal dbg (Host.host_parse idna) Host.host_parse_opaque Host.host_display (serialize_internal u) = Some u.
+Proof. exact round_trips_reach_model. Qed.
+Print Assumptions C03_round_trips_reach_model.
+
+(* non-vacuity, on the host model with the oracle idna_clean: the hypotheses hold, and the history parse
+   "http://1.2.3.4:81/p", quirks set_hostname "[::1]", set_query "k=v" -> "http://[::1]:81/p?k=v" is in ReachC4 *)
+Example C03_round_trips_reach_inhabited :
+  (HostOK2 mhp0 Host.host_parse_opaque Host.host_display /\ host_nonempty mhp0 Host.host_parse_opaque)
+  /\ reachc4_example_stmt.
+Proof. split; [exact reachfin_hyps | exact reachc4_example]. Qed.
